@@ -345,8 +345,14 @@ func (s *LinearState) deleteDependencies(ctx *Context, id string) error {
 	pattern := Map{
 		KW_DeleteWith: []string{id},
 	}
-	srs, err := s.search(ctx, pattern, false)
+	var stale []string
+	srs, err := s.search(ctx, pattern, false, &stale)
 	if nil != err {
+		return err
+	}
+	// (We hold the write lock.)  What the search found expired goes
+	// as well, as it always did.
+	if err = s.sweep(ctx, stale); nil != err {
 		return err
 	}
 
@@ -364,10 +370,75 @@ func (s *LinearState) deleteDependencies(ctx *Context, id string) error {
 }
 
 func (s *LinearState) Search(ctx *Context, pattern Map) (*SearchResults, error) {
-	return s.search(ctx, pattern, true)
+	// Under the read lock nothing is removed.  What we find expired
+	// goes (with its dependents, which we might have found, too)
+	// once we have let go of that lock, and then we look again.
+	expired := 0
+	for try := 0; ; try++ {
+		var stale []string
+		srs, err := s.search(ctx, pattern, true, &stale)
+		if err != nil || len(stale) == 0 {
+			if srs != nil {
+				srs.Expired += expired
+			}
+			return srs, err
+		}
+		expired += len(stale)
+		if err = s.purge(ctx, stale); err != nil {
+			return nil, err
+		}
+		if purgeTries <= try+1 {
+			srs.Expired = expired
+			return srs, nil
+		}
+	}
 }
 
-func (s *LinearState) search(ctx *Context, pattern Map, lock bool) (*SearchResults, error) {
+// expired says whether the given fact has expired, and notes its id
+// in 'stale' if it has.  Nothing is removed: the caller might hold
+// only the read lock.  It is up to the caller to remove what is
+// stale: 'purge', for a reader that has let go of its lock.
+func (s *LinearState) expired(ctx *Context, id string, fact map[string]interface{}, now int64, stale *[]string) (bool, error) {
+	gone, err := checkExpiration(ctx, fact, now)
+	if gone && stale != nil {
+		*stale = append(*stale, id)
+	}
+	return gone, err
+}
+
+// purge removes the facts with the given ids that have expired, the
+// way 'expire' does (record, dependents).
+//
+// Readers call this when they have let go of their read lock: a
+// removal needs the write lock.  What is stored under an id by the
+// time we have that lock is looked at again: it might be a new fact.
+func (s *LinearState) purge(ctx *Context, ids []string) error {
+	if len(ids) == 0 {
+		return nil
+	}
+	s.slock(ctx, false)
+	defer s.sunlock(ctx, false)
+	return s.sweep(ctx, ids)
+}
+
+// sweep is 'purge' for a caller that holds the write lock.
+func (s *LinearState) sweep(ctx *Context, ids []string) error {
+	now := time.Now().UTC().Unix()
+	for _, id := range ids {
+		if rf, have := s.Facts[id]; have {
+			if _, err := s.expire(ctx, id, rf.M, now); err != nil {
+				return err
+			}
+		}
+	}
+	return nil
+}
+
+// search does the work of 'Search'.  With 'lock', it takes the read
+// lock; otherwise the caller holds a lock.  Nothing is removed: the
+// ids of the facts that have expired are appended to 'stale', for the
+// caller to remove.
+func (s *LinearState) search(ctx *Context, pattern Map, lock bool, stale *[]string) (*SearchResults, error) {
 	Log(DEBUG, ctx, "LinearState.Search", "pattern", pattern)
 	timer := NewTimer(ctx, "LinearState.search")
 	defer timer.Stop()
@@ -384,7 +455,7 @@ func (s *LinearState) search(ctx *Context, pattern Map, lock bool) (*SearchResul
 	now := time.Now().UTC().Unix()
 	for id, rf := range s.Facts {
 		srs.Checked++
-		expired, err := s.expire(ctx, id, rf.M, now)
+		expired, err := s.expired(ctx, id, rf.M, now, stale)
 		if err != nil {
 			return nil, err
 		}
@@ -437,6 +508,24 @@ func (s *LinearState) FindRules(ctx *Context, event Map) (map[string]Map, error)
 }
 
 func (s *LinearState) doFindRules(ctx *Context, event Map) (map[string]Map, error) {
+	// As in 'Search': nothing is removed under the read lock.
+	for try := 0; ; try++ {
+		var stale []string
+		acc, err := s.findRulesShared(ctx, event, &stale)
+		if err != nil || len(stale) == 0 {
+			return acc, err
+		}
+		if err = s.purge(ctx, stale); err != nil {
+			Log(ERROR, ctx, "LinearState.FindRules", "error", err, "when", "expiring")
+			return nil, err
+		}
+		if purgeTries <= try+1 {
+			return acc, nil
+		}
+	}
+}
+
+func (s *LinearState) findRulesShared(ctx *Context, event Map, stale *[]string) (map[string]Map, error) {
 	// We could call Search(), but we'll try to be a bit
 	// more efficient here.
 	acc := make(map[string]Map)
@@ -448,7 +537,7 @@ func (s *LinearState) doFindRules(ctx *Context, event Map) (map[string]Map, erro
 		if !given {
 			continue
 		}
-		expired, err := s.expire(ctx, id, rf.M, now)
+		expired, err := s.expired(ctx, id, rf.M, now, stale)
 		if err != nil {
 			Log(ERROR, ctx, "LinearState.FindRules", "error", err, "when", "expiring")
 			return nil, err
@@ -601,28 +690,54 @@ func (s *LinearState) Get(ctx *Context, id string) (Map, error) {
 func (s *LinearState) get(ctx *Context, id string, getLock bool) (Map, error) {
 	Log(DEBUG, ctx, "LinearState.get", "name", s.Name, "id", id)
 
+	var rf RawFact
+	var found, expired bool
+	var err error
 	if getLock {
-		s.slock(ctx, true)
+		rf, found, expired, err = s.look(ctx, id)
+	} else {
+		rf, found, expired, err = s.peek(ctx, id)
 	}
-	rf, found := s.Facts[id]
-	if getLock {
-		s.sunlock(ctx, true)
-	}
-
-	if !found {
-		return nil, NewNotFoundError("%s", id)
-	}
-	expired, err := s.expire(ctx, id, rf.M, 0)
 	if err != nil {
 		Log(ERROR, ctx, "LinearState.Get", "error", err, "when", "expiring")
 		return nil, err
 	}
+	if !found {
+		return nil, NewNotFoundError("%s", id)
+	}
 	if expired {
 		Log(ERROR, ctx, "LinearState.Get", "expired", expired, "id", id)
+		// It goes (with the write lock, which we do not hold
+		// here, and only if it is still the expired fact).
+		if err = s.purge(ctx, []string{id}); err != nil {
+			Log(ERROR, ctx, "LinearState.Get", "error", err, "when", "expiring")
+			return nil, err
+		}
 		return nil, NewNotFoundError("%s", id)
 	}
 	maybeInjectId(ctx, id, rf.M, false)
 	return rf.M, nil
+}
+
+// look finds the fact and says whether it has expired.  It removes
+// nothing.
+func (s *LinearState) look(ctx *Context, id string) (RawFact, bool, bool, error) {
+	s.slock(ctx, true)
+	defer s.sunlock(ctx, true)
+	return s.peek(ctx, id)
+}
+
+// peek is 'look' for a caller that holds the lock.
+func (s *LinearState) peek(ctx *Context, id string) (RawFact, bool, bool, error) {
+	rf, found := s.Facts[id]
+	if !found {
+		return RawFact{}, false, false, nil
+	}
+	expired, err := checkExpiration(ctx, rf.M, 0)
+	if err != nil || expired {
+		return RawFact{}, true, expired, err
+	}
+	return rf, true, false, nil
 }
 
 // expire checks for expiration and removes the fact if expired.
